@@ -47,9 +47,9 @@ where
         while let Some(character) = chars.next() {
             if character == b'%' {
                 let [hex_dig_1, hex_dig_2] = [chars.next()?, chars.next()?];
-                let hex = format!("{}{}", hex_dig_1 as char, hex_dig_2 as char);
-                let byte = u8::from_str_radix(&hex, 16).ok()?;
-                decoded.push(byte);
+                let high = (hex_dig_1 as char).to_digit(16)?;
+                let low = (hex_dig_2 as char).to_digit(16)?;
+                decoded.push((high * 16 + low) as u8);
             } else {
                 decoded.push(character);
             }
